@@ -8,6 +8,8 @@ import (
 type vstatus struct {
 	rcpt string
 	code int // 0 = accepted (nil status)
+	enh  EnhancedCode
+	msg  string
 }
 
 // verif_C18_script: an LMTP client against a scripted peer. One to T
@@ -28,20 +30,22 @@ func verif_C18_script() {
 		// earlier one's callback
 		cbMode := verifChoice(3) // 0 LMTPData with a callback, 1 Data(), 2 LMTPData(nil)
 		withCb := cbMode == 0
-		nr := nondetInt(1, 2)
+		nr := nondetInt(1, verifBound(2, 3))
 		script := "250 2.0.0 ok\r\n"
 		var want []vstatus
 		accepted := make([]bool, nr)
 		anyRefusal := false
+		anyAccepted := false
 		for i := 0; i < nr; i++ {
 			accepted[i] = nondetBool()
 			if accepted[i] {
 				script += "250 2.1.5 ok\r\n"
+				anyAccepted = true
 			} else {
 				script += "550 5.1.1 no such user\r\n"
 			}
 		}
-		assume(accepted[0] || (nr > 1 && accepted[1]))
+		assume(anyAccepted)
 		script += "354 go\r\n"
 		for i := 0; i < nr; i++ {
 			if !accepted[i] {
@@ -50,15 +54,27 @@ func verif_C18_script() {
 			addr := "r" + strconv.Itoa(t) + strconv.Itoa(i) + "@v"
 			if nondetBool() {
 				script += "250 2.0.0 <" + addr + "> delivered\r\n"
-				want = append(want, vstatus{addr, 0})
+				want = append(want, vstatus{rcpt: addr})
 			} else {
 				code := []int{450, 550, 552}[verifChoice(3)]
 				enh := strconv.Itoa(code/100) + ".2.0"
+				ec := EnhancedCode{code / 100, 2, 0}
 				if code == 552 {
 					enh = "5.3.4" // what a server says about an over-size message
+					ec = EnhancedCode{5, 3, 4}
 				}
-				script += strconv.Itoa(code) + " " + enh + " <" + addr + "> refused\r\n"
-				want = append(want, vstatus{addr, code})
+				// the verdict's own text: one line, or two lines (RFC 2034
+				// repeats the enhanced code on every line), each naming the
+				// transaction and recipient it belongs to
+				tag := strconv.Itoa(t) + strconv.Itoa(i)
+				if nondetBool() {
+					script += strconv.Itoa(code) + " " + enh + " <" + addr + "> refused " + tag + "\r\n"
+					want = append(want, vstatus{addr, code, ec, "<" + addr + "> refused " + tag})
+				} else {
+					script += strconv.Itoa(code) + "-" + enh + " <" + addr + "> refused " + tag + "\r\n" +
+						strconv.Itoa(code) + " " + enh + " second line " + tag + "\r\n"
+					want = append(want, vstatus{addr, code, ec, "<" + addr + "> refused " + tag + "\nsecond line " + tag})
+				}
 				anyRefusal = true
 			}
 		}
@@ -83,11 +99,11 @@ func verif_C18_script() {
 		var err error
 		if withCb {
 			w, err = c.LMTPData(func(rcpt string, st *SMTPError) {
-				code := 0
+				v := vstatus{rcpt: rcpt}
 				if st != nil {
-					code = st.Code
+					v = vstatus{rcpt, st.Code, st.EnhancedCode, st.Message}
 				}
-				got = append(got, vstatus{rcpt, code})
+				got = append(got, v)
 			})
 		} else if cbMode == 1 {
 			w, err = c.Data()
@@ -108,13 +124,25 @@ func verif_C18_script() {
 			verifAssert(len(got) == len(want), "C18.one-callback-per-accepted-recipient")
 			if len(got) == len(want) {
 				for i := range got {
-					verifAssert(got[i] == want[i], "C18.callback-carries-own-recipient-and-verdict")
+					verifAssert(got[i].rcpt == want[i].rcpt && got[i].code == want[i].code, "C18.callback-carries-own-recipient-and-verdict")
+					verifAssert(got[i].enh == want[i].enh && got[i].msg == want[i].msg, "C18.callback-carries-own-enhanced-code-and-text")
 				}
 			}
 		} else {
 			verifReach("C18.without-callback")
 			if anyRefusal {
 				verifAssert(cerr != nil, "C18.refusal-not-lost-without-callback")
+				// the error is the first refused recipient's own verdict
+				if se, ok := cerr.(*SMTPError); ok {
+					for _, wv := range want {
+						if wv.code != 0 {
+							verifAssert(se.Code == wv.code && se.EnhancedCode == wv.enh && se.Message == wv.msg, "C18.close-error-is-first-refusal")
+							break
+						}
+					}
+				} else {
+					verifAssert(false, "C18.close-error-is-an-smtp-error")
+				}
 			} else {
 				verifAssert(cerr == nil, "C18.close-ok-without-callback")
 			}
@@ -166,7 +194,7 @@ func verif_C18_isolation() {
 				if st != nil {
 					k = st.Code
 				}
-				o.cbs = append(o.cbs, vstatus{rcpt, k})
+				o.cbs = append(o.cbs, vstatus{rcpt: rcpt, code: k})
 			})
 		case 2:
 			return c.LMTPData(nil)
